@@ -57,10 +57,10 @@ PROPS = {
         'not_decided': ['non-increasing in speed beyond the assumed monotonicity of IEEE division'],
     },
     'C11': {
-        'technique': 'Verus contract on the extracted text of Engine::generator (per-stream wiring) + Kani harnesses on Mask::create / MlpgAdjust::create / Models::stream; Kani: the argument lists of the three MlpgAdjust::new calls of Engine::generator cut from its text (K-genargs, full symbolic condition values)',
+        'technique': 'Verus contract on the extracted text of Engine::generator (per-stream wiring) + Kani harnesses on Mask::create / MlpgAdjust::create / Models::stream; the interpolated voicing weight itself: Verus unit interp (ModelParameter::{mul, mul_add_assign}: msd_out = w*msd, msd_out = msd + w*msd_k) + Kani mul with weights 1/2, 2, 1/4; Kani: the argument lists of the three MlpgAdjust::new calls of Engine::generator cut from its text (K-genargs, full symbolic condition values)',
         'level_text': 'unbounded proof that stream i receives exactly msd_threshold[i], gv_weight[i], model_stream(i); voiced <=> msd > threshold and NODATA placement bounded by Kani',
         'level_note': 'callees abstracted by uninterpreted functions of their arguments (determinism of safe Rust without interior mutability assumed)',
-        'verus': ['engine', 'vocoder'],
+        'verus': ['engine', 'vocoder', 'interp'],
         'assumptions': [], 'trusted_base': [], 'not_decided': [],
     },
     'C19': {
